@@ -13,7 +13,8 @@ Lemma layout_pinned :
   /\ (forall n, chunk_rec_len n = chunk_payload_off + n + journal_rec_checksum_sz)
   /\ root_rec_len = journal_rec_len_sz + (journal_rec_tag_sz + journal_rec_kind_sz) + (journal_rec_tag_sz + journal_rec_addr_sz)
                     + (journal_rec_tag_sz + journal_rec_timestamp_sz) + journal_rec_checksum_sz
-  /\ journal_rec_len_sz = uint32_size.
+  /\ journal_rec_len_sz = uint32_size
+  /\ root_rec_len = root_hash_record_size.
 Proof. repeat split; reflexivity. Qed.
 
 (* ------------------------------------------------------------------ *)
@@ -160,24 +161,24 @@ Section Records.
 
   Lemma read_fields_S f buf r :
     read_fields (S f) buf r =
-      if lenN buf <=? 4 then ROk r
+      if lenN buf <=? 4 then (if lenN buf <? 4 then RErrTag else ROk r)
       else match buf with
            | [] => RBad
            | tag :: b1 =>
              if tag =? tag_kind then
                match b1 with
                | k :: b2 => read_fields f b2 {| p_len := p_len r; p_kind := k; p_addr := p_addr r; p_payload := p_payload r; p_ts := p_ts r |}
-               | [] => RBad
+               | [] => RErrTag
                end
              else if tag =? tag_addr then
                match splitN 20 b1 with
                | Some (a, b2) => read_fields f b2 {| p_len := p_len r; p_kind := p_kind r; p_addr := a; p_payload := p_payload r; p_ts := p_ts r |}
-               | None => RBad
+               | None => RErrTag
                end
              else if tag =? tag_ts then
                match splitN 8 b1 with
                | Some (t, b2) => read_fields f b2 {| p_len := p_len r; p_kind := p_kind r; p_addr := p_addr r; p_payload := p_payload r; p_ts := rd64 t |}
-               | None => RBad
+               | None => RErrTag
                end
              else if tag =? tag_payload then
                match splitN (lenN b1 - 4) b1 with
@@ -207,7 +208,7 @@ Section Records.
       change (3 =? tag_kind) with false. change (3 =? tag_addr) with false. change (3 =? tag_ts) with false.
       change (3 =? tag_payload) with true. cbn iota.
       replace (lenN (p ++ c) - 4) with (lenN p) by (len_simpl; lia). rewrite splitN_app.
-      rewrite read_fields_S. rewrite leb4_true by lia. cbn [p_len p_kind p_addr p_payload p_ts]. reflexivity.
+      rewrite read_fields_S. rewrite leb4_true by lia. rewrite Lc. change (4 <? 4) with false. cbv iota. cbn [p_len p_kind p_addr p_payload p_ts]. reflexivity.
     - (* root: kind, timestamp, addr *)
       destruct W as [_ Wts].
       assert (SA : forall x, splitN 20 (a ++ x) = Some (a, x)) by (intro x; rewrite <- La; apply splitN_app).
@@ -222,7 +223,7 @@ Section Records.
       rewrite read_fields_S. rewrite leb4_false by (len_simpl; lia).
       change (2 =? tag_kind) with false. change (2 =? tag_addr) with true. cbn iota.
       rewrite SA.
-      rewrite read_fields_S. rewrite leb4_true by lia. cbn [p_len p_kind p_addr p_payload p_ts]. reflexivity.
+      rewrite read_fields_S. rewrite leb4_true by lia. rewrite Lc. change (4 <? 4) with false. cbv iota. cbn [p_len p_kind p_addr p_payload p_ts]. reflexivity.
   Qed.
 End Records.
 
